@@ -105,7 +105,17 @@ class Predicates:
     def eval(self, e, env, universe):
         k = e['k']
         if k in F.CASTS:
-            return self.eval(e['c'][0], env, universe)
+            v = self.eval(e['c'][0], env, universe)
+            if isinstance(v, int) and not isinstance(v, bool) and e.get('t') is not None \
+                    and (k == 'CStyleCastExpr' or e.get('ck') == 'IntegralCast'):
+                t = self.tu.types[e['t']]
+                if t.kind == 'int' and getattr(t, 'w', None) and t.w < 64:
+                    # conversion to a narrower integer type wraps (two's complement)
+                    m = v & ((1 << t.w) - 1)
+                    if t.signed and m >= 1 << (t.w - 1):
+                        m -= 1 << t.w
+                    return m
+            return v
         if 'v' in e and k != 'DeclRefExpr':
             return e['v']
         if k == 'DeclRefExpr':
